@@ -38,11 +38,60 @@ def make(version=1, grid=1, seed=0, fgrid=1):
 
 
 def wind_args(da):
+    """one wind / depth record per time step, chosen by the time LABEL (so a selection of records keeps its own winds); scalars
+    for an object without a time dimension."""
     import xarray as xr
+    W, D, P = np.array([8.0, 14.0, 20.0]), np.array([10.0, 100.0, 250.0]), np.array([30.0, 200.0, 3000.0])
+    if "time" not in da.dims:
+        return dict(wspd=14.0, wdir=100.0, dpt=200.0)
     t = da.time
-    return dict(wspd=xr.DataArray(np.array([8.0, 14.0, 20.0]), coords={"time": t}, dims=("time",)),
-                wdir=xr.DataArray(np.array([10.0, 100.0, 250.0]), coords={"time": t}, dims=("time",)),
-                dpt=xr.DataArray(np.array([30.0, 200.0, 3000.0]), coords={"time": t}, dims=("time",)))
+    k = np.asarray(t.values)
+    k = (k.astype(int) if np.issubdtype(k.dtype, np.integer) else np.arange(k.size)) % 3
+    return dict(wspd=xr.DataArray(W[k], coords={"time": t}, dims=("time",)), wdir=xr.DataArray(D[k], coords={"time": t}, dims=("time",)),
+                dpt=xr.DataArray(P[k], coords={"time": t}, dims=("time",)))
+
+
+def _readonly(d):
+    d = d.copy(deep=True)
+    d.values.flags.writeable = False
+    return d
+
+
+# Session.tla's derivation steps: the object becomes what a public operation / an xarray selection returned
+DERIVE = {
+    "isel_time_list": lambda d: d.isel(time=[1]),
+    "isel_time_scalar": lambda d: d.isel(time=1),
+    "sel_dirs": lambda d: d.isel(dir=slice(None, None, 2)),
+    "sel_dir_one": lambda d: d.isel(dir=[2]),
+    "isel_freq_slice": lambda d: d.isel(freq=slice(1, 6)),
+    "sel_freq_one": lambda d: d.isel(freq=[3]),
+    "smooth": lambda d: d.spec.smooth(),
+    "interp": lambda d: d.spec.interp(freq=np.array([0.06, 0.1, 0.16, 0.22, 0.3, 0.38]), dir=np.arange(0.0, 360.0, 30.0)),
+    "split": lambda d: d.spec.split(fmin=0.08, fmax=0.32),
+    "rotate": lambda d: d.spec.rotate(45.0),
+    "ptm3": lambda d: d.spec.partition.ptm3(parts=2),
+    "bbox": lambda d: d.spec.partition.bbox([dict(fmin=0.04, fmax=0.16)]),
+    "oned": lambda d: d.spec.oned(),
+    "times2": lambda d: d * 2.0,
+    "concat": lambda d: __import__("xarray").concat([d, d.assign_coords(time=d.time + 3) * 0.5], "time"),
+    "expand_site": lambda d: d.expand_dims(site=[5]),
+    "expand_site_last": lambda d: d.expand_dims(site=[5], axis=-1),
+    "readonly": _readonly,
+    "sortby_time_desc": lambda d: d.sortby("time", ascending=False),
+    "where": lambda d: d.where(d > 3, 0.0),
+    "scale_by_hs": lambda d: d.spec.scale_by_hs("2*hs"),
+}
+
+
+def fresh(x):
+    """a freshly constructed object with the same labelled values: new C-contiguous buffer, leading dimensions first, own coordinate
+    arrays, no scalar coordinates, no attributes; the dtype is kept (it is part of the contents)."""
+    import xarray as xr
+    order = [d for d in x.dims if d not in ("freq", "dir")] + [d for d in ("freq", "dir") if d in x.dims]
+    y = x.transpose(*order)
+    if hasattr(y.data, "compute"):
+        y = y.compute()
+    return xr.DataArray(np.array(y.values), coords={d: np.array(y[d].values) for d in order}, dims=order, name="efth")
 
 
 def apply_rep(da, act):
@@ -247,10 +296,10 @@ def circular_same(a, b, rel):
     return None
 
 
-def session_cfg(name, ops, repacts, editacts, maxlen, nver=2, ngrid=2, emit=True):
+def session_cfg(name, ops, repacts, editacts, maxlen, nver=2, ngrid=2, emit=True, derives=()):
     q = lambda xs: "{" + ",".join('"%s"' % x for x in xs) + "}"  # noqa
-    txt = ("SPECIFICATION Spec\nCONSTANTS OPS = %s\n REPACTS = %s\n EDITACTS = %s\n MAXLEN = %d\n NVER = %d\n NGRID = %d\n"
-           "INVARIANT ResultIsFunctionOfContents\nPROPERTY CallsDoNotModify\n" % (q(ops), q(repacts), q(editacts), maxlen, nver, ngrid))
+    txt = ("SPECIFICATION Spec\nCONSTANTS OPS = %s\n REPACTS = %s\n EDITACTS = %s\n MAXLEN = %d\n NVER = %d\n NGRID = %d\n DERIVES = %s\n"
+           "INVARIANT ResultIsFunctionOfContents\nINVARIANT DerivedKeepFreq\nPROPERTY CallsDoNotModify\n" % (q(ops), q(repacts), q(editacts), maxlen, nver, ngrid, q(derives)))
     if emit:
         txt += "INVARIANT EmitInv\n"
     return ws.write_cfg("session_%s.cfg" % name, txt)
